@@ -271,6 +271,17 @@ func oracle(s *cspec, sc sigCache) verdict {
 		if !e.Present {
 			continue
 		}
+		// the entry must sit in its validator's slot: VerifyCommit compares the (unsigned) ValidatorIndex and
+		// ValidatorAddress fields with the slot since the C32 repair (state.MedianTime trusts them)
+		if e.Index != i || e.Addr != s.New.Members[i] {
+			v.why = "validator-slot"
+			return v
+		}
+	}
+	for i, e := range s.Entries {
+		if !e.Present {
+			continue
+		}
 		ok := sigOK(e, s.New.Members[i], s.VChain)
 		// validate the construction knowledge with the standard library
 		cv := types.Vote{Type: types.SignedMsgType(e.T), Height: e.H, Round: e.R, BlockID: blocks[e.Blk], Timestamp: baseTime.Add(time.Duration(e.Ts) * time.Second)}
@@ -743,7 +754,7 @@ func run(c *vf.Ctx) {
 	})
 
 	c.Assume("crypto/ed25519 (standard library) validates the harness's construction knowledge of which signatures are valid; Vote.SignBytes is trusted as the canonical encoding")
-	c.Assume("well-formedness follows Commit.ValidateBasic and the documented checks of VerifyCommit; ValidatorAddress/ValidatorIndex fields of commit entries are outside the signature and outside VerifyCommit")
+	c.Assume("well-formedness follows Commit.ValidateBasic and the documented checks of VerifyCommit, including that every entry carries the index and address of the slot it occupies")
 	c.RequireCounter("calls_VerifyCommit", 20000)
 	c.RequireCounter("calls_VerifyFutureCommit", 3000)
 	c.RequireCounter("accepted_VerifyCommit", 1000)
